@@ -34,6 +34,7 @@ type memNet struct {
 	onDial   func(n int)
 	holeC2S  bool // applied to connections dialled from now on
 	holeS2C  bool
+	cutAfterEach int64 // every connection dialled from now on is cut after this many client->server bytes
 }
 
 func newMemNet() *memNet {
@@ -92,6 +93,7 @@ func (n *memNet) Dial(ctx context.Context, network, addr string) (net.Conn, erro
 	fc := &faultConn{Conn: c, peer: s}
 	n.mu.Lock()
 	fc.holeC2S, fc.holeS2C = n.holeC2S, n.holeS2C
+	fc.cutAfter = n.cutAfterEach
 	n.conns = append(n.conns, fc)
 	n.mu.Unlock()
 	select {
